@@ -50,7 +50,7 @@ static void run_case(const uint8_t* hb, size_t hl, size_t n, int follow, bool di
   uint8_t* p = end - n;
   /* payload bytes are whatever the pattern holds; only the head is written */
   memcpy(p, hb, hl < n ? hl : n);
-  for (size_t i = hl; i < n && i < hl + 16; i++) p[i] = 0x5a; /* deterministic bytes right after the head */
+  for (size_t i = hl; i < n && i < hl + 64; i++) p[i] = 0x5a; /* deterministic bytes right after the head */
   rhead h;
   int hr = ref_head(p, n, 0, &h);
   if (hr == RH_OK && h.full < n && follow >= 0) p[(size_t)h.full] = (uint8_t)follow;
@@ -170,7 +170,9 @@ static void for_arg(uint8_t ib, unsigned argw, uint64_t arg) {
   unsigned mt = ib >> 5, ai = ib & 31;
   bool defstr = (mt == 2 || mt == 3) && ai <= 27;
   uint64_t len = defstr ? (argw ? arg : ai) : 0;
-  for (size_t n = 0; n <= hl + 1; n++) {
+  /* buffers longer than the head: a decoder may take a different path once "enough" bytes are present (the longest head has 9) */
+  size_t nmax = vf_tier ? 40 : 20;
+  for (size_t n = 0; n <= (nmax > hl + 1 ? nmax : hl + 1); n++) {
     run_case(hb, hl, n, -1, true);
     if (n == hl + 1) {
       run_case(hb, hl, n, 0x00, false);
@@ -240,11 +242,11 @@ struct vf_check vf_the_check = {
     .property = "C08",
     .level = "exploration",
     .rule = "cases = (initial byte, argument value, buffer length n, following byte): all 256 initial bytes; arguments exhaustive for 1- and 2-byte widths, the "
-            "structured sets S32/S64 for 4- and 8-byte widths; n = 0..head+1 and, for definite strings, payload end -1/0/+1 (and 4096 / 10 / 11 bytes for "
+            "structured sets S32/S64 for 4- and 8-byte widths; n = 0..max(head+1, 20) (thorough: 40) and, for definite strings, payload end -1/0/+1 (and 4096 / 10 / 11 bytes for "
             "declared lengths that cannot be supplied); distinct_nontrivial = distinct (initial byte, argument, n) triples (the follow-byte and repeat variants "
             "are not counted); states = distinct (tokeniser verdict, initial byte, min(n,12)) classes",
-    .bounds = {"all initial bytes x all 1/2-byte arguments x structured 4/8-byte arguments x all buffer lengths 0..head+1 (+ payload boundaries)",
-               "as quick, plus a stride-4099 sweep of all 32-bit arguments and every value of every byte position of 64-bit arguments"},
+    .bounds = {"all initial bytes x all 1/2-byte arguments x structured 4/8-byte arguments x all buffer lengths 0..20 (+ payload boundaries)",
+               "as quick with buffer lengths 0..40 for every argument, plus a stride-4099 sweep of all 32-bit arguments and every value of every byte position of 64-bit arguments"},
     .assumptions = {"reference tokeniser vf_ref.c:ref_head (RFC 8949 section 3) is correct; pinned by ./vf setup",
                     "buffer is flush against a PROT_NONE page: any read past n bytes is a SIGSEGV attributed to the case",
                     "the clause 'keeps no state between calls' is checked behaviourally here (same call after other calls gives the same result); the store-level "
